@@ -207,6 +207,25 @@ Fixpoint agg_others (fuel : nat) (donl : bool) (l : list Z) (acc : list (option 
     end
   end.
 
+(* the loop over the further aggregation units refuses a unit that is cut short (D34): every byte
+   behind the first unit belongs to a complete [DOND] size unit triple.  (The Go loop does both at
+   once; the units it collects are agg_others of the same bytes.) *)
+Fixpoint agg_clean (fuel : nat) (donl : bool) (l : list Z) : bool :=
+  match fuel with
+  | O => false
+  | S f =>
+    match l with
+    | [] => true
+    | _ :: t =>
+      match (if donl then t else l) with
+      | a :: b :: l2 =>
+        let size := be16 a b in
+        if zlen l2 <? size then false else agg_clean f donl (drop size l2)
+      | _ => false
+      end
+    end
+  end.
+
 Definition h265_unmarshal (donl : bool) (payload : option (list Z)) : res h5packet :=
   match payload with
   | None => Err ENil
@@ -246,6 +265,7 @@ Definition h265_unmarshal (donl : bool) (payload : option (list Z)) : res h5pack
           | a :: b :: r2 =>
             let size := Z.lor (Z.shiftl a 8) b in
             if zlen r2 <? size then Err EShort else
+            if negb (agg_clean (S (length r2)) donl (drop size r2)) then Err EShort else
             let others := agg_others (S (length r2)) donl (drop size r2) [] in
             match others with
             | [] => Err EShort
